@@ -309,6 +309,13 @@ class CallMixin:
             return self.call_contract(fi, c, env, st, node, recursive=mutual)
         if c is not None and fi.qualname == self.cur_fn_real() and c.get("decreases") is not None and not st.spec:
             return self.call_contract(fi, c, env, st, node, recursive=True)
+        cc = getattr(self, "cur_contract", None) or {}
+        if c is not None and fi.qualname == self.cur_fn_real() and not st.spec and c is not cc and c.get("decreases") is None \
+                and cc.get("descends_to") == c.get("qualname"):
+            # the variant under verification descends to ANOTHER contract of the same function, one under which the function is
+            # proved not to recurse at all (that contract's own obligation `recursion-unreachable`): a modular call to an
+            # instance that meets that contract's precondition (obliged here) therefore terminates - no measure needed
+            return self.call_contract(fi, c, env, st, node, recursive=False)
         if c is not None and fi.qualname == self.cur_fn_real() and not st.spec:
             # recursion without a termination measure in the contract: only accepted when provably unreachable
             self.oblige(st, f"call:{fi.qualname.split('.')[-1]}/recursion-unreachable", z3.BoolVal(False),
